@@ -37,7 +37,7 @@ def gen_antenna(rng, families=None, max_pulses=25, ground=None, len_jitter=(0.7,
     fam = rng.choice(fams)
     if ground is None:
         ground = fam in ('monopole', 'monopole_top', 'gp', 'monopole_taper') or (fam in ('dipole', 'vee', 'array') and rng.random() < 0.25)
-    if fam in ('monopole', 'monopole_top', 'gp', 'monopole_taper', 'stub_top'):
+    if fam in ('monopole', 'monopole_top', 'gp', 'monopole_taper', 'stub_top', 'close_grounded'):
         ground = True if fam != 'gp' else False
     f = 10 ** rng.uniform(0.3, 2.2)           # 2 .. 160 MHz
     lam = C / f
@@ -130,6 +130,23 @@ def gen_antenna(rng, families=None, max_pulses=25, ground=None, len_jitter=(0.7,
                 a, b = b, a
             tops.append(dict(nseg=n2, p0=[float(v) for v in a], p1=[float(v) for v in b], r=float(rad)))
         wires.extend([stub] + tops if rng.random() < 0.7 else tops + [stub])
+    elif fam == 'close_grounded':
+        # two separate wires standing on the ground less than half a segment apart (a monopole and a parasitic or second fed
+        # wire, parallel or sloping away): nothing joins them but the ground plane
+        n = rng.randint(4, 8)
+        x, y = rng.uniform(-1, 1) * lam, rng.uniform(-1, 1) * lam
+        r0 = float(min(rad, seg / 60))
+        gap = seg * rng.uniform(0.2, 0.45)
+        phi = rng.uniform(0, 2 * math.pi)
+        b2 = np.array([x + gap * math.cos(phi), y + gap * math.sin(phi), 0.0])
+        w1 = dict(nseg=n, p0=[float(x), float(y), 0.0], p1=[float(x), float(y), float(seg * n)], r=r0)
+        n2 = rng.randint(3, n)
+        lean = rng.choice([0.0, 0.0, rng.uniform(0.1, 0.6)])
+        t2 = b2 + np.array([lean * math.cos(phi), lean * math.sin(phi), 1.0]) * seg * n2 / math.sqrt(1 + lean * lean)
+        w2 = dict(nseg=n2, p0=[float(v) for v in b2], p1=[float(v) for v in t2], r=r0)
+        if rng.random() < 0.4:
+            w2['p0'], w2['p1'] = w2['p1'], w2['p0']
+        wires.extend([w1, w2] if rng.random() < 0.6 else [w2, w1])
     elif fam == 'taper_vee':
         # two tapered legs (inverted V, bent dipole) each drawn from its tip to the common apex — or from the apex, or one each
         # way: wire ends of either number meet at the junction of two objects whose first and last segments differ
